@@ -18,7 +18,7 @@ from typing import Dict, List, Optional, Set, Tuple
 from ..adt import ADTs
 from ..dispatch import TypeTests
 from ..flow import always_raises
-from ..index import AnalysisError, Class, Func, Index, dotted, norm_stmt
+from ..index import AnalysisError, Class, Func, Index, dotted, norm_stmt, last_name
 from ..report import Finding, RuleResult
 
 HOOK_SUM = {
@@ -537,6 +537,46 @@ def rule_travbase(ctx, prop: str) -> RuleResult:
                 )
             else:
                 res.sample(f"{c.name}.{h} on {K}: {status}")
+    # rebuild clause (LoopIR_Rewrite): a case computes `new_X = self.map_*(n.X)` per child and rebuilds the
+    # node only `if <some new_X is there>`.  A new_X left out of that test is computed and then thrown away
+    # whenever it is the ONLY child that changed (a loop whose lower bound alone mentions the substituted
+    # variable keeps the old variable: unroll_loop / partial_eval leave `seq(i, 8)` with `i` unbound); one left
+    # out of `update(...)` is always thrown away.
+    rw = m.cls("LoopIR_Rewrite")
+    n_rebuild = 0
+    for h in ("map_s", "map_e", "map_t", "map_w_access"):
+        f = rw.methods.get(h)
+        if f is None:
+            continue
+        for n in f.body_nodes():
+            if not (isinstance(n, ast.If) and "isinstance" in ast.unparse(n.test)):
+                continue
+            news = []
+            for st in n.body:
+                if isinstance(st, ast.Assign) and len(st.targets) == 1 and isinstance(st.targets[0], ast.Name) and st.targets[0].id.startswith("new_") and isinstance(st.value, ast.Call) and (last_name(st.value) or "").startswith(("map_", "_map_")):
+                    news.append(st.targets[0].id)
+            if not news:
+                continue
+            gate = [st for st in n.body if isinstance(st, ast.If)]
+            if not gate:
+                continue
+            n_rebuild += 1
+            res.instances += 1
+            res.nontrivial += 1
+            tested = {k.id for k in ast.walk(gate[0].test) if isinstance(k, ast.Name)}
+            used = {k.id for st in gate[0].body for k in ast.walk(st) if isinstance(k, ast.Name)}
+            miss_t = [v for v in news if v not in tested]
+            miss_u = [v for v in news if v not in used]
+            ok = not miss_t and not miss_u
+            res.ob(ok)
+            if not ok:
+                ctor = ast.unparse(n.test)[:60]
+                res.add(Finding("TRAVBASE", f.file, gate[0].lineno, f.qualname, f"rebuild:{','.join(miss_t + miss_u)}",
+                                f"LoopIR_Rewrite.{h}, case `{ctor}`: " + (f"{miss_t} computed but not part of the change test `{ast.unparse(gate[0].test)[:60]}`" if miss_t else f"{miss_u} computed but not passed to update(...)")
+                                + ": the rewritten child is dropped when it is the only one that changed — a substitution (unroll_loop, divide_loop's tail, partial_eval, inline) leaves the old variable in a "
+                                "loop's lower bound after removing its binder"))
+    if n_rebuild < 10:
+        raise AnalysisError(f"TRAVBASE: expected >= 10 rebuild gates in LoopIR_Rewrite, found {n_rebuild}")
     return res
 
 
